@@ -1,7 +1,7 @@
 //! C15: corrupt::edit_word with the real InsertEdits / ReplaceEdits / DeleteEdits /
 //! SwapEdits, chained as corrupt_spelling does, against the relational model.
 //!
-//! input  = (g kinds fd pm itab rtab seed steps)
+//! input  = (g kinds fd pm itab rtab seed steps xs ps)
 //!          kinds = (ins del rep swap)            which Option<&…> arguments are Some
 //!          fd    = DeleteEdits::full_delete
 //!          pm    = predicate mode: 0 = the predicates of corrupt_spelling
@@ -13,6 +13,14 @@
 //!                  exclusion set (sorted), can_delete per position, can_swap per adjacent pair.
 //!                  steps[0].w / steps[0].ex are primary, everything else is derived by
 //!                  running the real chain (canon re-derives it).
+//!          xs    = ((seam ss) ...) per call: seam = the known-finding class flag (the result is explained
+//!                  at text level, but by no candidate whose clusters are the real segmentation of the
+//!                  returned word); ss = some explaining candidate's cluster list is a chain (every two
+//!                  neighbours `glued`, harness/src/seam.rs) -- compared with the model's `step_ss` by `agree`
+//!          ps    = `edit_safe` of the first word and the enabled tables as evaluated by seam.rs
+//!                  (all clusters of the pool glued in every order); compared by `agree`
+//!          All cluster lists (words, table strings, returned words) come from unicode-segmentation and
+//!          are compared with the model's `segment` by `agree`.
 //! output = (probe chain)
 //!          probe = for idx in 0..len+1 of the first word: (InsertEdits::get_edits, ReplaceEdits::get_edits)
 //!                  each () | (((string pos) ...)); -2 = ReplaceEdits on the empty word (not called)
@@ -36,6 +44,9 @@ use text_utils::data::preprocessing::{preprocessing, Part, PreprocessingFnConfig
 use text_utils::data::{TextDataInfo, TrainData};
 use text_utils::unicode::{CharString, Character};
 use vh::*;
+
+#[path = "../seam.rs"]
+mod seam;
 
 type Edits = Vec<(String, bool)>;
 
@@ -193,8 +204,43 @@ fn candidates(cfg: &Cfg, w: &[String], ex: &[usize]) -> Vec<(&'static str, usize
 
 struct Derived {
     steps: Vec<Val>,
+    xs: Vec<Val>,
+    ps: bool,
     out: Val,
     tags: Vec<String>,
+}
+
+/// `chain` of C10_Seam.v on a cluster list
+fn chain_rs(w: &[String]) -> bool {
+    w.windows(2).all(|p| seam::glued(&p[0], &p[1]))
+}
+
+/// `edit_safe` of C15_Seam.v: the clusters of the word and of every positive-weight string of the
+/// enabled tables are glued in every order
+fn edit_safe_rs(cfg: &Cfg, w0: &str) -> bool {
+    if !cfg.g {
+        return false;
+    }
+    let mut pool: Vec<String> = split(w0, true);
+    if cfg.kinds[0] {
+        for (_, _, es) in &cfg.itab {
+            for (e, pos) in es {
+                if *pos {
+                    pool.extend(split(e, true));
+                }
+            }
+        }
+    }
+    if cfg.kinds[2] {
+        for (_, _, _, es) in &cfg.rtab {
+            for (e, pos) in es {
+                if *pos {
+                    pool.extend(split(e, true));
+                }
+            }
+        }
+    }
+    pool.iter().all(|a| pool.iter().all(|b| seam::glued(a, b)))
 }
 
 fn derive(cfg: &Cfg, w0: &str, ex0: &[usize], k: usize, cache: &mut Cache) -> Derived {
@@ -249,9 +295,14 @@ fn derive(cfg: &Cfg, w0: &str, ex0: &[usize], k: usize, cache: &mut Cache) -> De
     ex.sort();
     ex.dedup();
     let mut steps = vec![];
+    let mut xs = vec![];
     let mut chain = vec![];
     let mut nt = false;
     let mut seam = false;
+    let ps = edit_safe_rs(cfg, w0);
+    if g {
+        tagset.insert(if ps { "edit-safe".into() } else { "edit-unsafe".into() });
+    }
     for _ in 0..k {
         let cl = split(&word, g);
         let cd: Vec<bool> = cl.iter().map(|c| cache.can_delete(c, pm)).collect();
@@ -281,6 +332,7 @@ fn derive(cfg: &Cfg, w0: &str, ex0: &[usize], k: usize, cache: &mut Cache) -> De
         match res {
             Err(_) => {
                 chain.push(Val::panic());
+                xs.push(Val::L(vec![Val::b(false), Val::b(false)]));
                 tagset.insert("panic".into());
                 break;
             }
@@ -319,6 +371,17 @@ fn derive(cfg: &Cfg, w0: &str, ex0: &[usize], k: usize, cache: &mut Cache) -> De
                 } else {
                     tagset.insert("unexplained".into());
                 }
+                // the model's side of the class (C15_Seam.v `step_ss`): some explaining candidate's
+                // cluster list is a chain; by `kf1_seam_class` that is "not in the class"
+                let ss = g && expl.iter().any(|(_, _, mw, _)| chain_rs(mw));
+                xs.push(Val::L(vec![Val::b(seam), Val::b(ss)]));
+                if g && !expl.is_empty() {
+                    tagset.insert(if ss { "step-chain".into() } else { "step-nochain".into() });
+                    if ss == seam {
+                        // theorem and real segmenter disagree on this step (`agree` reports it too)
+                        tagset.insert("seam-mismatch".into());
+                    }
+                }
                 chain.push(Val::L(vec![Val::L(ncl.iter().map(|c| Val::str(c)).collect()), usize_list(&nexv)]));
                 word = nw;
                 ex = nexv;
@@ -326,8 +389,16 @@ fn derive(cfg: &Cfg, w0: &str, ex0: &[usize], k: usize, cache: &mut Cache) -> De
                     // grapheme mode only: the edit is explained at text level, but re-segmenting the
                     // result does not give the clusters the edit produced (a neighbour joined or split).
                     // Known-finding class KF1-seam; the chain is cut here so that the class covers
-                    // nothing but this last call.
-                    tagset.insert("class:KF1-seam".into());
+                    // nothing but this last call. Inside the domain of `edit_stable_iff` (an explaining
+                    // edit whose seams are glued) the class tag is withheld: a failure there is a violation.
+                    tagset.insert("kf1-seam".into());
+                    if ps {
+                        // `chain_stable_partial`: cannot happen for an edit-safe start
+                        tagset.insert("edit-safe-kf1".into());
+                    }
+                    if !ss && !ps {
+                        tagset.insert("class:KF1-seam".into());
+                    }
                     break;
                 }
             }
@@ -340,7 +411,7 @@ fn derive(cfg: &Cfg, w0: &str, ex0: &[usize], k: usize, cache: &mut Cache) -> De
     ts.sort();
     tags.extend(ts);
     tags.push(format!("k{}", steps.len()));
-    Derived { steps, out: Val::L(vec![probe, Val::L(chain)]), tags }
+    Derived { steps, xs, ps, out: Val::L(vec![probe, Val::L(chain)]), tags }
 }
 
 // ------------------------------------------------------------------ val <-> cfg
@@ -348,7 +419,7 @@ fn edits_to_val(es: &Edits, g: bool) -> Val {
     Val::L(es.iter().map(|(s, p)| Val::L(vec![Val::clusters(s, g), Val::b(*p)])).collect())
 }
 
-fn cfg_to_val(cfg: &Cfg, steps: Vec<Val>) -> Val {
+fn cfg_to_val(cfg: &Cfg, steps: Vec<Val>, xs: Vec<Val>, ps: bool) -> Val {
     Val::L(vec![
         Val::b(cfg.g),
         Val::L(cfg.kinds.iter().map(|b| Val::b(*b)).collect()),
@@ -368,6 +439,8 @@ fn cfg_to_val(cfg: &Cfg, steps: Vec<Val>) -> Val {
         ),
         Val::I(cfg.seed as i64),
         Val::L(steps),
+        Val::L(xs),
+        Val::b(ps),
     ])
 }
 
@@ -388,7 +461,7 @@ fn val_edits(v: &Val) -> Option<Edits> {
 /// parse; tables are deduplicated by key (first entry wins, as in the model's lookup)
 fn val_cfg(v: &Val) -> Option<(Cfg, String, Vec<usize>, usize)> {
     let l = v.as_l()?;
-    if l.len() != 8 {
+    if l.len() != 8 && l.len() != 10 {
         return None;
     }
     let g = l[0].as_bool()?;
@@ -497,8 +570,11 @@ fn e2e_info(e: &E2e, _cache: &mut Cache) -> Val {
 fn e2e_to_val(e: &E2e, cache: &mut Cache) -> Val {
     let (itab, rtab) = e2e_tables(&e.trigrams);
     let cfg = Cfg { g: false, kinds: [true; 4], fd: false, pm: 0, itab, rtab, seed: e.seed };
-    let mut l = match cfg_to_val(&cfg, vec![]) {
-        Val::L(l) => l,
+    let mut l = match cfg_to_val(&cfg, vec![], vec![], false) {
+        Val::L(mut l) => {
+            l.truncate(8);
+            l
+        }
         _ => unreachable!(),
     };
     l[0] = Val::I(2);
@@ -810,14 +886,28 @@ impl Prop for C15 {
             return e2e_to_val(&e, &mut self.cache);
         }
         let g = rng.chance(1, 2);
-        let seam = g && rng.chance(1, 4);
-        let w0 = gen_word(rng, g, seam);
+        let probe = g && rng.chance(1, 7);
+        let seam = probe || (g && rng.chance(1, 4));
+        let w0 = if probe {
+            // seam probe: a pair of code points of random grapheme categories (biased to the edge of
+            // `cf_break`) behind a text that sets up the look-behind states of the segmenter; deletes,
+            // swaps and the seam-prone edit strings of the tables then move the seams
+            let (a, b) = seam::seam_pair(rng);
+            let (u, v) = (seam::seam_prefix(rng), seam::seam_suffix(rng));
+            match rng.below(3) {
+                0 => format!("{u}{a}{b}{v}"),
+                1 => format!("{u}{a}x{b}{v}"),
+                _ => format!("{a}{u}{b}"),
+            }
+        } else {
+            gen_word(rng, g, seam)
+        };
         let cfg = gen_cfg(rng, &w0, g, seam);
         let n = CharString::new(&w0, g).len();
         let ex0 = gen_excl(rng, n);
         let k = rng.range(1, 6);
         let d = derive(&cfg, &w0, &ex0, k, &mut self.cache);
-        cfg_to_val(&cfg, d.steps)
+        cfg_to_val(&cfg, d.steps, d.xs, d.ps)
     }
 
     fn exhaustive(&mut self, _tier: Tier) -> Vec<Val> {
@@ -871,7 +961,7 @@ impl Prop for C15 {
                                     seed: seed * 7919 + (wbits * 64 + exbits * 8 + kbits) as u64,
                                 };
                                 let d = derive(&cfg, &w0, &ex0, 2, &mut self.cache);
-                                out.push(cfg_to_val(&cfg, d.steps));
+                                out.push(cfg_to_val(&cfg, d.steps, d.xs, d.ps));
                             }
                         }
                     }
@@ -892,7 +982,7 @@ impl Prop for C15 {
         let (cfg, w0, ex0, k) = val_cfg(input)?;
         let d = derive(&cfg, &w0, &ex0, k, &mut self.cache);
         // the input must be the canonical one: tables as parsed, steps as derived from the real chain
-        if cfg_to_val(&cfg, d.steps) != *input {
+        if cfg_to_val(&cfg, d.steps.clone(), d.xs.clone(), d.ps) != *input {
             return None;
         }
         Some((d.out, d.tags))
@@ -905,11 +995,11 @@ impl Prop for C15 {
         }
         let (cfg, w0, ex0, k) = val_cfg(input)?;
         let d = derive(&cfg, &w0, &ex0, k, &mut self.cache);
-        Some(cfg_to_val(&cfg, d.steps))
+        Some(cfg_to_val(&cfg, d.steps, d.xs, d.ps))
     }
 
     fn selfcheck(&mut self) -> Vec<String> {
-        let mut errs = vec![];
+        let mut errs = seam::cats_selfcheck();
         // the context strings of the model
         if Val::str("<bow>").to_sexp() != "(60 98 111 119 62)" || Val::str("<eow>").to_sexp() != "(60 101 111 119 62)" {
             errs.push("bow/eow constants".into());
